@@ -573,7 +573,7 @@ int main(int argc, char **argv)
                     if (!reduced_only) fmt_add(&c, strips);
                     if (th && mi == 0) { c.cfg = PH_CFG_GENERAL; fmt_add(&c, strips); c.cfg = PH_CFG_DEFAULT; }
                     /* the same strips delivered by the transformed-image fetchers (source, and mask where there is one) */
-                    uint64_t vcap = th ? 512 : 64, vs = strips > vcap ? vcap : strips;
+                    uint64_t vcap = th ? 128 : 64, vs = strips > vcap ? vcap : strips;
                     if (!reduced_only && (th || mi || (si % 3 == di % 3))) { c.pres = 1; fmt_add(&c, vs); }
                     if (!reduced_only && mi) { c.pres = 2; fmt_add(&c, vs); }
                     /* the operator-reduction columns: alpha-less destination / source carrying a repeat attribute */
@@ -588,7 +588,7 @@ int main(int argc, char **argv)
     vf_space_run("shared-storage-source-and-mask", 2 * 5 * 4 * 3 * 3 * 2 * 2 * 2 * 2, alias_case, NULL);
     vf_space_run("solid-fill-sources-16bit", (uint64_t)RC_NOPS * 11 * 3 * 4 * 3 * 2, solid_case, NULL);
     vf_bounds = th ? "exact: 13 ops x {none: full 2^32 (sc,sa,dc,da); unified: (sc,sa,ma) full 2^24 x (dc,da) in B8^2 + alpha cube; CA: (sc,mc,ma) full 2^24 x (sa,dc,da) in B6^3 and (sc,sa,mc) full 2^24 x (dc,da) in T^2 x ma in B6 [default chain; boundary alphabets under general-only]}; "
-                     "tolerance: 40 ops x 3 modes x B8^4..6 + full (sa,da) plane; formats: 53 ops x 17x17 format pairs x 5 mask presentations x per-channel {0,1,mid,max-1,max} (first 2048 strips of 128), and again with the source / the mask delivered by the transformed-image fetchers (first 512 strips, mask value fastest), and with REPEAT_NORMAL set on alpha-less destinations / sources (operator reduction); cfgs default+general"
+                     "tolerance: 40 ops x 3 modes x B8^4..6 + full (sa,da) plane; formats: 53 ops x 17x17 format pairs x 5 mask presentations x per-channel {0,1,mid,max-1,max} (first 2048 strips of 128), and again with the source / the mask delivered by the transformed-image fetchers (first 128 strips, mask value fastest), and with REPEAT_NORMAL set on alpha-less destinations / sources (operator reduction); cfgs default+general"
                    : "exact: 13 ops x 3 mask modes x B8^4..6 + (sa,ma,da) full 2^24 cube; tolerance: 40 ops x 3 modes x B8^4..5 (CA: B8^4 x B6^2) + full (sa,da) plane x B6^2; "
                      "formats: 11 ops x 17x17 format pairs (masked: a third) x per-channel 5-value alphabets (first 256 strips of 128), and again with the source / the mask delivered by the transformed-image fetchers (first 64 strips, mask value fastest), and with REPEAT_NORMAL set on alpha-less destinations / sources (operator reduction); cfgs default+general";
     return vf_finish();
